@@ -29,7 +29,7 @@ DONE = ('(layer_in_one_group(assignments[sorted_groups[m]], worker_groups) and '
         'implies(colocate_factors, layer_on_one_worker(assignments[sorted_groups[m]])))')
 
 contract(
-    'kfac.assignment:KAISAAssignment.greedy_assignment', props=['C17', 'C06', 'C12'],
+    'kfac.assignment:KAISAAssignment.greedy_assignment', props=['C17', 'C06'],
     params={'work': WORK, 'worker_groups': KList(KList(KInt)), 'world_size': KInt, 'colocate_factors': KBool}, result=ASG,
     locals={'__comp0': ASG, '__comp1': KDict(KStr, KReal)},
     requires=[('groups_are_ranks', GROUPS_OK), ('world', 'world_size >= 1')],
